@@ -83,7 +83,7 @@ func c21HasReturn(n ast.Node) bool {
 }
 
 func c21Lookup(fs *Facts, f *File, path string) {
-	fd := f.Func("settings", "GetBySwampName")
+	fd := miscFunc(f, "settings", "GetBySwampName")
 	if fd == nil || fd.Body == nil || !c21FieldIsMap(f, "settings", "patterns") {
 		return
 	}
@@ -98,6 +98,7 @@ func c21Lookup(fs *Facts, f *File, path string) {
 		return
 	}
 	loop := loops[0]
+	miscUnContinue(loop.Body)
 	where := path + ":" + itoa(f.Line(loop))
 	if len(f.CallsSuffix(loop.Body, ".ComparePattern")) != 1 {
 		return
@@ -105,7 +106,7 @@ func c21Lookup(fs *Facts, f *File, path string) {
 	if c21HasReturn(loop.Body) {
 		// first match wins: `if swampName.ComparePattern(..) { return pi }` directly in the body
 		for _, st := range loop.Body.List {
-			if is, ok := st.(*ast.IfStmt); ok && len(f.CallsSuffix(is.Cond, ".ComparePattern")) == 1 && c21HasReturn(is.Body) {
+			if is, ok := st.(*ast.IfStmt); ok && len(f.CallsSuffix(is.Cond, ".ComparePattern")) == 1 && c21HasReturn(is.Body) && !strings.HasPrefix(f.Str(is.Cond), "!") {
 				fs.Enum("lookup", "iteratesMap", where)
 				return
 			}
@@ -152,7 +153,7 @@ func c21Lookup(fs *Facts, f *File, path string) {
 	})
 	type hit struct {
 		cmp, fn string
-		line int
+		line    int
 	}
 	var hits []hit
 	ast.Inspect(loop.Body, func(n ast.Node) bool {
@@ -212,7 +213,7 @@ func c21Lookup(fs *Facts, f *File, path string) {
 	fs.Enum("lookup", "ranked", where)
 	fs.Enum("cmp", hits[0].cmp, path+":"+itoa(hits[0].line))
 	// weights
-	rf := f.Func("", rankFn)
+	rf := miscFunc(f, "", rankFn)
 	if rf == nil || rf.Body == nil {
 		return
 	}
@@ -272,8 +273,8 @@ func c21Persist(fs *Facts, f *File, path string) {
 		{"persistsWi", "WriteIntervalSec", "WriteIntervalSec"},
 		{"persistsSize", "MaxFileSizeByte", "MaxFileSizeByte"},
 	}
-	reg := f.Func("settings", "RegisterPattern")
-	ld := f.Func("settings", "loadSettingsFromFilesystem")
+	reg := miscFunc(f, "settings", "RegisterPattern")
+	ld := miscFunc(f, "settings", "loadSettingsFromFilesystem")
 	if reg == nil || ld == nil {
 		return
 	}
@@ -318,29 +319,52 @@ func c21Persist(fs *Facts, f *File, path string) {
 	if loadLit == nil || loadVar == "" {
 		return
 	}
-	// the PatternModel literal and `pm.X = …` assignments in RegisterPattern
+	// the PatternModel literal and `pm.X = …` assignments in RegisterPattern — or, one level down, in a helper of this
+	// file that RegisterPattern calls
 	saved := map[string]bool{}
-	ast.Inspect(reg.Body, func(n ast.Node) bool {
-		switch x := n.(type) {
-		case *ast.CompositeLit:
-			if f.Str(x.Type) == "PatternModel" {
-				for _, el := range x.Elts {
-					if kv, ok := el.(*ast.KeyValueExpr); ok {
-						saved[f.Str(kv.Key)] = true
+	scan := func(body ast.Node) {
+		ast.Inspect(body, func(n ast.Node) bool {
+			switch x := n.(type) {
+			case *ast.CompositeLit:
+				if f.Str(x.Type) == "PatternModel" {
+					for _, el := range x.Elts {
+						if kv, ok := el.(*ast.KeyValueExpr); ok {
+							saved[f.Str(kv.Key)] = true
+						}
+					}
+				}
+			case *ast.AssignStmt:
+				for _, l := range x.Lhs {
+					if se, ok := l.(*ast.SelectorExpr); ok {
+						if _, isPM := tags[se.Sel.Name]; isPM {
+							saved[se.Sel.Name] = true
+						}
 					}
 				}
 			}
-		case *ast.AssignStmt:
-			for _, l := range x.Lhs {
-				if s := f.Str(l); strings.HasPrefix(s, "pm.") {
-					saved[strings.TrimPrefix(s, "pm.")] = true
+			return true
+		})
+	}
+	scan(reg.Body)
+	if !saved["NameCanonicalForm"] {
+		ast.Inspect(reg.Body, func(n ast.Node) bool {
+			if c, ok := n.(*ast.CallExpr); ok {
+				callee := ""
+				switch fn := c.Fun.(type) {
+				case *ast.Ident:
+					callee = fn.Name
+				case *ast.SelectorExpr:
+					callee = fn.Sel.Name
+				}
+				if h := f.Func("", callee); h != nil && h.Body != nil && h != reg {
+					scan(h.Body)
 				}
 			}
-		}
-		return true
-	})
-	if len(saved) == 0 {
-		return
+			return true
+		})
+	}
+	if !saved["NameCanonicalForm"] {
+		return // the place where the model entry is built was not found: every persists* fact stays unknown
 	}
 	loaded := map[string]bool{}
 	for _, el := range loadLit.Elts {
@@ -379,7 +403,7 @@ func c21SelOf(f *File, e ast.Expr, v string) string {
 //	compares GetCloseAfterIdle / GetWriteInterval / GetMaxFileSizeByte of the stored entry with the new values;
 //	unchangedChecksType = yes when <cond> also requires `…GetSwampType() == setting.PermanentSwamp`, no when it does not.
 func c21Unchanged(fs *Facts, f *File, path string) {
-	fd := f.Func("settings", "RegisterPattern")
+	fd := miscFunc(f, "settings", "RegisterPattern")
 	if fd == nil || fd.Body == nil {
 		return
 	}
@@ -427,7 +451,7 @@ func c21Unchanged(fs *Facts, f *File, path string) {
 	disk := No
 	if strings.Contains(cond, "!s.unsaved.Load() &&") {
 		disk = Unknown
-		if sv := f.Func("settings", "SaveSettingsToFilesystem"); sv != nil && f.Contains(sv, "defer func() { s.unsaved.Store(err != nil) }()") &&
+		if sv := miscFunc(f, "settings", "SaveSettingsToFilesystem"); sv != nil && f.Contains(sv, "defer func() { s.unsaved.Store(err != nil) }()") &&
 			sv.Type.Results != nil && len(sv.Type.Results.List) == 1 && len(sv.Type.Results.List[0].Names) == 1 && sv.Type.Results.List[0].Names[0].Name == "err" {
 			disk = Yes
 		}
@@ -440,7 +464,7 @@ func c21Unchanged(fs *Facts, f *File, path string) {
 //	no : the marshalled model goes straight to the final path with os.WriteFile(filePath, …)
 //	yes: it is written to a temporary path and moved over the final one with os.Rename(<tmp>, filePath)
 func c21SaveAtomic(fs *Facts, f *File, path string) {
-	fd := f.Func("settings", "SaveSettingsToFilesystem")
+	fd := miscFunc(f, "settings", "SaveSettingsToFilesystem")
 	if fd == nil || fd.Body == nil || !f.Contains(fd, "filePath := path.Join(hydraSettingsFolderPath, fileName)") {
 		return
 	}
